@@ -296,6 +296,11 @@ const XMLCh * DOMCharacterDataImpl::substringData(const DOMNode *node, XMLSize_t
     if (offset > len)
         throw DOMException(DOMException::INDEX_SIZE_ERR, 0, GetDOMCharacterDataImplMemoryManager);
 
+    // If the sum of offset and count exceeds the length, then all the
+    // characters to the end of the data are returned
+    if (count > len - offset)
+        count = len - offset;
+
     DOMDocumentImpl *doc = (DOMDocumentImpl *)node->getOwnerDocument();
 
     XMLCh* newString;
